@@ -148,3 +148,45 @@ pub fn run(ws: &[&str]) -> String {
     let _ = Cow::Borrowed("");
     tok_bytes(out.as_bytes())
 }
+
+
+/// `DBGERR pretty secs`: Debug of the ERROR values that carry a reply which could not be used — a 200
+/// reply whose body holds four secrets but does not parse (scope sent as an array), and a non-200
+/// reply of the same kind.  No recognisable part of the secrets may appear.
+pub fn dbgerr(ws: &[&str]) -> String {
+    if ws.len() != 2 {
+        return BAD.into();
+    }
+    let secs = match untok_list_str(ws[1]) {
+        Some(l) if l.len() == 4 => l,
+        _ => return BAD.into(),
+    };
+    let body = serde_json::json!({"access_token": secs[0], "token_type": "bearer", "refresh_token": secs[1], "device_code": secs[2],
+                                  "user_code": secs[3], "verification_uri": "https://v/", "expires_in": "soon", "scope": [1]})
+    .to_string()
+    .into_bytes();
+    let client = BasicClient::new(ClientId::new("id".to_string()))
+        .set_token_uri(TokenUrl::new("https://t.example/token".to_string()).unwrap())
+        .set_device_authorization_url(DeviceAuthorizationUrl::new("https://t.example/dev".to_string()).unwrap());
+    let mut out = String::new();
+    for status in [200u16, 400] {
+        let b = body.clone();
+        let http = move |_r: HttpRequest| -> Result<HttpResponse, crate::kinds::FakeError> {
+            Ok(http::Response::builder().status(status).header("content-type", "application/json").body(b.clone()).unwrap())
+        };
+        let r1 = client.exchange_code(AuthorizationCode::new("c".to_string())).request(&http);
+        let r2: Result<StandardDeviceAuthorizationResponse, _> = client.exchange_device_code().request(&http);
+        if ws[0] == "1" {
+            out.push_str(&format!("{:#?}\n{:#?}\n", r1, r2));
+            if let Err(e) = &r1 {
+                out.push_str(&format!("{:#?}\n{}\n", e, e));
+            }
+        } else {
+            out.push_str(&format!("{:?}\n{:?}\n", r1, r2));
+            if let Err(e) = &r1 {
+                out.push_str(&format!("{:?}\n{}\n", e, e));
+            }
+        }
+    }
+    tok_bytes(out.as_bytes())
+}
